@@ -1941,7 +1941,14 @@ class TestGraph(object):
         )
         pre_node.results = list(test_node.results)
         pre_node.started_worker = worker
-        status = await self.runner.run_test_node(pre_node)
+        # the configuration is already a part of the installation attempt which has to be
+        # visible as such to all other workers deciding about the remaining number of tries
+        attempt_result = {"name": test_node.params["name"], "status": "UNKNOWN"}
+        test_node.results += [attempt_result]
+        try:
+            status = await self.runner.run_test_node(pre_node)
+        finally:
+            test_node.results.remove(attempt_result)
         if not status:
             logging.error(
                 "Could not configure the installation for %s on %s",
